@@ -602,7 +602,7 @@ func verifC19Judge(fail func(string, ...any), dir, path string, pre *state.Clust
 		var i int
 		if _, err := fmt.Sscanf(a, "saved %d", &i); err == nil {
 			cur, attempted = i, i
-			if i == plan.hookAt && plan.hookMode != "" {
+			if i == plan.hookAt && (plan.hookMode == "error" || plan.hookMode == "kill") {
 				fail("save %d reported success although its after-temp-write hook aborted it (%s)", i, plan.hookMode)
 			}
 			continue
@@ -622,7 +622,7 @@ func verifC19Judge(fail func(string, ...any), dir, path string, pre *state.Clust
 	}
 	cands := []int{cur}
 	inflight := attempted + 1
-	if run.killed && inflight < len(states) && !(inflight == plan.hookAt && plan.hookMode != "") {
+	if run.killed && inflight < len(states) && !(inflight == plan.hookAt && (plan.hookMode == "error" || plan.hookMode == "kill")) {
 		cands = append(cands, inflight)
 	}
 	got, err := New(path).Load(context.Background())
@@ -790,7 +790,7 @@ func TestVerifC19KillEnumerate(t *testing.T) {
 	})
 	all := gen.Example(int(kit.Seed() % (1 << 31)))
 	pre, states := all[0], all[1:]
-	points, inWindow := 0, 0
+	points := 0
 	for _, hookMode := range passes {
 		plan := verifC19Plan{pre: true, n: len(states), hookAt: -1}
 		if hookMode != "" {
@@ -827,50 +827,73 @@ func TestVerifC19KillEnumerate(t *testing.T) {
 			kinds = append(kinds, kind)
 		}
 		sort.Strings(kinds)
+		type verifC19Point struct {
+			inject, dir, path string
+			spec              verifC19ChildSpec
+			cleanup           func()
+			run               *verifC19Run
+			err               error
+		}
+		var pts []*verifC19Point
 		for _, kind := range kinds {
 			for ord := 1; ord <= counts[kind]; ord++ {
+				pts = append(pts, &verifC19Point{inject: fmt.Sprintf("%s:%d", kind, ord)})
+			}
+		}
+		// the kill runs are independent processes in their own directories; run a few at a time
+		sem := make(chan struct{}, kit.Scale("C19_ENUM_PAR", 4, 6))
+		done := make(chan *verifC19Point, len(pts))
+		for _, p := range pts {
+			p := p
+			go func() {
+				sem <- struct{}{}
+				defer func() { <-sem; done <- p }()
 				if col.Exhausted() {
+					p.err = errors.New("budget exhausted")
 					return
 				}
-				dir, path, spec, cleanup := setup()
-				inject := fmt.Sprintf("%s:%d", kind, ord)
-				run, err := verifC19RunChild(dir, spec, inject, "strace")
-				if err != nil {
-					cleanup()
-					col.Inconclusive("child run failed")
-					continue
+				p.dir, p.path, p.spec, p.cleanup = setup()
+				p.run, p.err = verifC19RunChild(p.dir, p.spec, p.inject, "strace")
+			}()
+		}
+		for range pts {
+			<-done
+		}
+		for _, p := range pts {
+			if p.err != nil {
+				if p.cleanup != nil {
+					p.cleanup()
 				}
-				if !run.killed {
-					cleanup()
-					fail("kill point %s of the reference trace was not reached (acks=%v)", inject, run.acks)
-				}
-				got := verifC19Judge(fail, dir, path, &pre, states, plan, run)
-				final := states[len(states)-1]
-				final.Revision += 7
-				verifC19AfterCrash(fail, path, final)
-				cleanup()
-				points++
-				k := col.NewCase()
-				k.Key("enum", hookMode, kind, ord, fmt.Sprint(spec.States))
-				k.SetNonTrivial(verifC19InWindow(run.killedAt))
-				if verifC19InWindow(run.killedAt) {
-					inWindow++
-				}
-				k.Label("enumerated: killed at " + run.killedAt)
-				k.LabelIf(got >= 0 && got == len(run.acks), "in-flight state became visible")
-				k.LabelIf(got == -1, "previous state survived")
-				inj, at, idx, acks := inject, run.killedAt, run.killIndex, run.acks
-				k.Sample(func() any {
-					return fmt.Sprintf("enumeration saves=%d hook=%s inject=%s killedAt=%s#%d acks=%v loaded=%d", len(states), hookMode, inj, at, idx, acks, got)
-				})
-				col.Commit(k)
+				col.Inconclusive("child run failed")
+				continue
 			}
+			run := p.run
+			if !run.killed {
+				p.cleanup()
+				fail("kill point %s of the reference trace was not reached (acks=%v)", p.inject, run.acks)
+			}
+			got := verifC19Judge(fail, p.dir, p.path, &pre, states, plan, run)
+			final := states[len(states)-1]
+			final.Revision += 7
+			verifC19AfterCrash(fail, p.path, final)
+			p.cleanup()
+			points++
+			k := col.NewCase()
+			k.Key("enum", hookMode, p.inject, fmt.Sprint(p.spec.States))
+			k.SetNonTrivial(verifC19InWindow(run.killedAt))
+			k.Label("enumerated: killed at " + run.killedAt)
+			k.LabelIf(got >= 0 && got == len(run.acks), "in-flight state became visible")
+			k.LabelIf(got == -1, "previous state survived")
+			inj, at, idx, acks := p.inject, run.killedAt, run.killIndex, run.acks
+			k.Sample(func() any {
+				return fmt.Sprintf("enumeration saves=%d hook=%s inject=%s killedAt=%s#%d acks=%v loaded=%d", len(states), hookMode, inj, at, idx, acks, got)
+			})
+			col.Commit(k)
 		}
 		col.AddExtra("enumerated_kill_points", int64(points))
 		col.AddExtra("enumerated_reference_trace_syscalls", int64(len(ref.trace)+1))
 		points = 0
 	}
-	_ = inWindow
 }
 
 // TestVerifC19DurabilityOrder: the syscall trace of generated saves shows, for
@@ -1008,14 +1031,21 @@ func TestVerifC19HookAbort(t *testing.T) {
 				err = New(path, opts...).Save(ctx, st)
 			}()
 			cancel()
-			if mode == "ok" {
+			switch {
+			case mode == "ok":
 				if err != nil {
 					fail("Save %d failed: %v", i, err)
 				}
 				s := st
 				last = &s
 				okSaves++
-			} else {
+			case (mode == "cancel" || mode == "precancelled") && err == nil:
+				// a cancelled context may or may not stop the save; a save that
+				// reports success must be visible
+				s := st
+				last = &s
+				okSaves++
+			default:
 				aborted++
 				if err == nil {
 					fail("Save %d (%s) reported success although it was aborted before the rename", i, mode)
@@ -1062,12 +1092,23 @@ func TestVerifC19Corruption(t *testing.T) {
 		defer cleanup()
 		path := filepath.Join(dir, "cluster-state.json")
 		st := verifC19State(rt, uint64(rapid.IntRange(1, 1_000_000).Draw(rt, "rev")))
-		if err := New(path).Save(context.Background(), st); err != nil {
-			fail("Save: %v", err)
+		// A saved file holds exactly state.Encode(st). Going through Save costs two
+		// fsyncs, so only a generated fraction of the cases does; those also
+		// confirm that the file content is the encoding.
+		viaSave := rapid.IntRange(0, 15).Draw(rt, "viaSave") == 0
+		if viaSave {
+			if err := New(path).Save(context.Background(), st); err != nil {
+				fail("Save: %v", err)
+			}
+		} else if err := os.WriteFile(path, verifC19Canon(st), 0o600); err != nil {
+			fail("write: %v", err)
 		}
 		orig, err := os.ReadFile(path)
 		if err != nil {
 			fail("read saved file: %v", err)
+		}
+		if viaSave && !bytes.Equal(orig, verifC19Canon(st)) {
+			fail("saved file is not the canonical encoding of the state")
 		}
 		if got, err := New(path).Load(context.Background()); err != nil || !bytes.Equal(verifC19Canon(got), verifC19Canon(st)) {
 			fail("Load of the untouched file: err=%v", err)
@@ -1159,6 +1200,7 @@ func TestVerifC19Corruption(t *testing.T) {
 		}
 		k.Key("corrupt", fmt.Sprint(desc), data)
 		k.SetNonTrivial(wellFormed)
+		k.LabelIf(viaSave, "file produced by Store.Save")
 		k.LabelIf(err == nil, "accepted: decodes to the very same state")
 		k.LabelIf(err != nil && !wellFormed, "rejected: not well-formed JSON")
 		k.LabelIf(err != nil && wellFormed && errors.Is(err, state.ErrChecksumMismatch), "rejected: checksum mismatch")
